@@ -14,6 +14,7 @@ import (
 	"encoding/json"
 	"fmt"
 	"math/rand"
+	"net"
 	"net/http/httptest"
 	"net/url"
 	"os"
@@ -58,6 +59,11 @@ type c20Dag struct {
 	Running bool
 	heldReq string
 	held    chan *vexec.Outcome
+	// a run held in a lifecycle handler (not in a step): released through the case
+	heldCase *vexec.Case
+	heldGate string
+	phase    string
+	frozen   net.Listener
 }
 
 type c20Env struct {
@@ -70,6 +76,8 @@ type c20Env struct {
 	ops   []string
 	seen  map[string]bool
 	nCase int
+	// abandon: stop acting on this sequence (see postLive)
+	abandon bool
 }
 
 func (e *c20Env) violate(key, what string) {
@@ -127,6 +135,84 @@ func (e *c20Env) post(dagID string, body map[string]string) int {
 	return rec.Code
 }
 
+// view is what the API shows of the DAGs that are at rest (status + history tab): a refused
+// action must not change it either (the stores' bytes are compared separately).
+func (e *c20Env) view() map[string]string {
+	m := map[string]string{}
+	for _, d := range e.dags {
+		if d.Running || d.frozen != nil {
+			continue
+		}
+		req := httptest.NewRequest("GET", "/api/v1/dags/"+url.PathEscape(d.ID)+"?tab=history", nil)
+		rec := httptest.NewRecorder()
+		e.env.Handler.ServeHTTP(rec, req)
+		m[d.ID] = fmt.Sprintf("%d %s", rec.Code, rec.Body.String())
+	}
+	return m
+}
+
+// freeze puts a listener that accepts and never answers where the DAG's agent would listen
+// (a frozen or overloaded agent process): status edits are then refused after the handler's
+// own guard has passed.
+func (e *c20Env) freeze(d *c20Dag) bool {
+	dg := mustDAG(e, d)
+	if dg == nil {
+		return false
+	}
+	_ = os.Remove(dg.SockAddr())
+	l, err := net.Listen("unix", dg.SockAddr())
+	if err != nil {
+		return false
+	}
+	d.frozen = l
+	go func() {
+		var held []net.Conn
+		defer func() {
+			for _, c := range held {
+				c.Close()
+			}
+		}()
+		for {
+			c, err := l.Accept()
+			if err != nil {
+				return
+			}
+			held = append(held, c)
+		}
+	}()
+	return true
+}
+
+func (e *c20Env) unfreeze(d *c20Dag) {
+	if d.frozen != nil {
+		d.frozen.Close()
+		if dg := mustDAG(e, d); dg != nil {
+			_ = os.Remove(dg.SockAddr())
+		}
+		d.frozen = nil
+	}
+}
+
+// postLive: an action on the DAG whose run the harness holds open.  The API decides by asking
+// the agent over its socket with a 3 s deadline of its own; on a loaded machine one such
+// exchange can miss that deadline, and the API then falls back to the history file.  A wrong
+// answer is therefore asked again once: only a repeated wrong answer is a verdict; a one-off
+// is counted and the rest of the sequence (whose model may be off now) is abandoned.
+func (e *c20Env) postLive(dagID string, body map[string]string, wrong func(int) bool) int {
+	code := e.post(dagID, body)
+	if !wrong(code) {
+		return code
+	}
+	time.Sleep(300 * time.Millisecond)
+	code2 := e.post(dagID, body)
+	if wrong(code2) {
+		return code2
+	}
+	e.c.Count("wrong_answers_on_a_live_run_not_reproduced", 1)
+	e.abandon = true
+	return code2
+}
+
 func (e *c20Env) spec(d *c20Dag, kind string) *vexec.CaseSpec {
 	e.nCase++
 	sp := &vexec.CaseSpec{ID: d.ID, Level: "agent", Free: true, DecSeed: int64(e.idx*1000 + e.nCase), PauseUs: 200, MaxCleanUpMs: 200}
@@ -140,8 +226,16 @@ func (e *c20Env) spec(d *c20Dag, kind string) *vexec.CaseSpec {
 			s.FailFirst = -1
 		case kind == "running" && i == 0:
 			s.Never = true
+		case kind == "running-in-failure-handler" && i == 0:
+			s.FailFirst = -1
 		}
 		sp.Steps = append(sp.Steps, s)
+	}
+	switch kind {
+	case "running-in-failure-handler":
+		sp.Handlers = map[string]*vexec.HandlerSpec{"onFailure": {Hold: true}}
+	case "running-in-exit-handler":
+		sp.Handlers = map[string]*vexec.HandlerSpec{"onExit": {Hold: true}}
 	}
 	return sp
 }
@@ -189,15 +283,28 @@ func (e *c20Env) makeRun(d *c20Dag, kind string) bool {
 		_ = w.Write(&st)
 		_ = w.Close()
 		d.Runs = append(d.Runs, &c20Run{Req: st.RequestID, Kind: "crashed", Steps: d.Steps})
-	case "running":
+	case "running", "running-in-failure-handler", "running-in-exit-handler":
 		entered := make(chan struct{})
 		var once sync.Once
 		d.held = make(chan *vexec.Outcome, 1)
-		sp := e.spec(d, "running")
+		d.heldCase, d.heldGate, d.phase = nil, "", kind
+		e.ops = append(e.ops, fmt.Sprintf("(%s has a live run held in phase %q)", d.ID, kind))
+		sp := e.spec(d, kind)
+		isStep := map[string]bool{}
+		for _, n := range d.Steps {
+			isStep[n] = true
+		}
 		go func() {
 			d.held <- vexec.Run(sp, &vexec.RunOpts{Dir: e.env.Root, KeepDirs: true, Quiet: true, HangBound: 30 * time.Second,
-				OnRunEnter: func(_ *vexec.Case, _ string, _ int, _ map[string]dagsched.NodeState) {
-					once.Do(func() { close(entered) })
+				OnRunEnter: func(cs *vexec.Case, step string, _ int, _ map[string]dagsched.NodeState) {
+					if kind == "running" || !isStep[step] {
+						once.Do(func() {
+							if kind != "running" {
+								d.heldCase, d.heldGate = cs, step
+							}
+							close(entered)
+						})
+					}
 				}})
 		}()
 		select {
@@ -210,7 +317,8 @@ func (e *c20Env) makeRun(d *c20Dag, kind string) bool {
 		loc := filepath.Join(e.env.DAGs, d.ID+".yaml")
 		ok := false
 		for dl := time.Now().Add(15 * time.Second); time.Now().Before(dl) && !ok; {
-			if s, err := e.env.Client.GetStatus(loc); err == nil && s.Status != nil && s.Status.Status == dagsched.StatusRunning {
+			// (what the agent answers is the subject of the check; here only its request id is needed)
+			if s, err := e.env.Client.GetStatus(loc); err == nil && s.Status != nil && s.Status.RequestID != "" && !d.hasRun(s.Status.RequestID) {
 				ok = true
 				d.heldReq = s.Status.RequestID
 			} else {
@@ -218,7 +326,7 @@ func (e *c20Env) makeRun(d *c20Dag, kind string) bool {
 			}
 		}
 		if !ok {
-			e.c.Inconclusive("c20: the held run is not reported running")
+			e.c.Inconclusive("c20: the held run does not answer with its request id")
 			return false
 		}
 		d.Running = true
@@ -226,8 +334,21 @@ func (e *c20Env) makeRun(d *c20Dag, kind string) bool {
 	return true
 }
 
+func (d *c20Dag) hasRun(req string) bool {
+	for _, r := range d.Runs {
+		if r.Req == req {
+			return true
+		}
+	}
+	return false
+}
+
 // endHeld waits for the held run to finish (after a stop reached it).
 func (e *c20Env) endHeld(d *c20Dag, limit time.Duration) bool {
+	if d.heldCase != nil {
+		// a stop does not interrupt a lifecycle handler: let the held handler return
+		d.heldCase.Release(d.heldGate)
+	}
 	select {
 	case out := <-d.held:
 		d.Running = false
@@ -307,7 +428,7 @@ func c20Sequence(c *core.Ctx, idx int) {
 		}
 	}
 	if r.Intn(3) != 0 {
-		if !e.makeRun(e.dags[r.Intn(3)], "running") {
+		if !e.makeRun(e.dags[r.Intn(3)], []string{"running", "running", "running-in-failure-handler", "running-in-exit-handler"}[r.Intn(4)]) {
 			return
 		}
 	}
@@ -329,13 +450,29 @@ func c20Sequence(c *core.Ctx, idx int) {
 		return d.Runs[len(d.Runs)-1].Kind
 	}
 	nact := c.Pick(14, 24)
-	for a := 0; a < nact && len(e.seen) == 0; a++ {
+	frozenAt := -1
+	if idx%6 == 0 {
+		frozenAt = r.Intn(nact)
+	}
+	for a := 0; a < nact && len(e.seen) == 0 && !e.abandon; a++ {
+		if a == frozenAt {
+			for _, fd := range e.dags {
+				if !fd.Running && len(fd.Runs) > 0 {
+					e.frozenEdit(fd)
+					break
+				}
+			}
+		}
 		d := e.dags[r.Intn(len(e.dags))]
 		st := state(d)
 		before := e.dump()
+		viewBefore := e.view()
 		sp0 := len(e.spawns())
 		c.Eval(1)
 		c.SetAdd("states_acted_on", st)
+		if d.Running {
+			c.Count("actions_on_a_run_held_in:"+d.phase, 1)
+		}
 		settle := func(wantSpawns int) [][]string {
 			deadline := time.Now().Add(5 * time.Second)
 			for {
@@ -359,6 +496,13 @@ func c20Sequence(c *core.Ctx, idx int) {
 			if diff := apih.Diff(before, e.dump()); len(diff) > 0 {
 				e.violate("refused-changed|"+what, fmt.Sprintf("%s on DAG in state %s was refused or malformed but changed the stores: %v", what, st, diff))
 			}
+			c.Count("obligations", 1)
+			after := e.view()
+			for id, v := range viewBefore {
+				if a, ok := after[id]; ok && a != v {
+					e.violate("refused-changed-view|"+what, fmt.Sprintf("%s on DAG in state %s was refused or malformed but what the API shows of DAG %s (status and history) changed: %s", what, st, id, firstDiff(v, a)))
+				}
+			}
 		}
 		noSpawn := func(what string, got [][]string) {
 			c.Count("obligations", 1)
@@ -374,9 +518,17 @@ func c20Sequence(c *core.Ctx, idx int) {
 			if p != "" || r.Intn(2) == 0 {
 				body["params"] = p
 			}
-			code := e.post(d.ID, body)
+			var code int
+			if st == "running" {
+				code = e.postLive(d.ID, body, func(c int) bool { return c < 400 })
+			} else {
+				code = e.post(d.ID, body)
+			}
 			e.ops = append(e.ops, fmt.Sprintf("start %s[%s] params=%q -> %d", d.ID, st, p, code))
 			c.Count("action_start", 1)
+			if e.abandon {
+				break
+			}
 			if st == "running" {
 				got := settle(0)
 				c.Count("obligations", 1)
@@ -411,7 +563,13 @@ func c20Sequence(c *core.Ctx, idx int) {
 				unchanged("accepted-start")
 			}
 		case k < 7: // stop
-			code := e.post(d.ID, map[string]string{"action": "stop"})
+			var code int
+			if st == "running" {
+				code = e.postLive(d.ID, map[string]string{"action": "stop"}, func(c int) bool { return c != 200 })
+				e.abandon = false // a stop that got through leaves the model intact
+			} else {
+				code = e.post(d.ID, map[string]string{"action": "stop"})
+			}
 			e.ops = append(e.ops, fmt.Sprintf("stop %s[%s] -> %d", d.ID, st, code))
 			c.Count("action_stop", 1)
 			c.Count("obligations", 1)
@@ -474,9 +632,17 @@ func c20Sequence(c *core.Ctx, idx int) {
 					prev = lastLine(file)
 				}
 			}
-			code := e.post(d.ID, body)
+			var code int
+			if st == "running" {
+				code = e.postLive(d.ID, body, func(c int) bool { return c < 400 })
+			} else {
+				code = e.post(d.ID, body)
+			}
 			e.ops = append(e.ops, fmt.Sprintf("%s %s[%s] req=%s step=%s -> %d", action, d.ID, st, reqClass, stepClass, code))
 			c.Count("action_mark", 1)
+			if e.abandon {
+				break
+			}
 			got := settle(0)
 			noSpawn(action, got)
 			valid := run != nil && reqClass == "valid" && stepClass == "valid" && file != ""
@@ -630,6 +796,90 @@ func c20Sequence(c *core.Ctx, idx int) {
 			ops = ops[:10]
 		}
 		c.Sample(map[string]any{"sequence": idx, "first_actions": ops})
+	}
+}
+
+func firstDiff(a, b string) string {
+	i := 0
+	for i < len(a) && i < len(b) && a[i] == b[i] {
+		i++
+	}
+	lo := i - 80
+	if lo < 0 {
+		lo = 0
+	}
+	return fmt.Sprintf("at byte %d: before ...%q, after ...%q", i, clip(a[lo:], 200), clip(b[lo:], 200))
+}
+
+// c20Frozen: a status edit that passes the handler's guard but is refused further down (the
+// agent's socket accepts and never answers), then an accepted edit of another step of the run.
+func (e *c20Env) frozenEdit(d *c20Dag) {
+	c := e.c
+	run := d.Runs[len(d.Runs)-1]
+	loc := filepath.Join(e.env.DAGs, d.ID+".yaml")
+	sf, err := jsondb.New(e.env.Data, false).FindByRequestID(loc, run.Req)
+	if err != nil {
+		return
+	}
+	viewBefore := e.view()
+	before := e.dump()
+	if !e.freeze(d) {
+		return
+	}
+	step := d.Steps[e.r.Intn(len(d.Steps))]
+	action := []string{"mark-success", "mark-failed"}[e.r.Intn(2)]
+	code := e.post(d.ID, map[string]string{"action": action, "requestId": run.Req, "step": step})
+	e.unfreeze(d)
+	e.ops = append(e.ops, fmt.Sprintf("%s %s[agent socket accepts, never answers] req=latest step=%s -> %d", action, d.ID, step, code))
+	c.Eval(1)
+	c.Count("edits_against_an_unresponsive_agent", 1)
+	c.Count("obligations", 2)
+	if code < 400 {
+		// accepted: then it must have changed exactly that step; the general oracle is not repeated here
+		c.Count("edits_against_an_unresponsive_agent_accepted", 1)
+		return
+	}
+	if diff := apih.Diff(before, e.dump()); len(diff) > 0 {
+		e.violate("refused-changed|"+action+"-unresponsive-agent", fmt.Sprintf("%s was refused (HTTP %d, the agent's socket does not answer) but changed the stores: %v", action, code, diff))
+	}
+	after := e.view()
+	for id, v := range viewBefore {
+		if a, ok := after[id]; ok && a != v {
+			e.violate("refused-changed-view|"+action+"-unresponsive-agent", fmt.Sprintf("%s of step %s was refused (HTTP %d, the agent's socket does not answer) but what the API shows of DAG %s changed: %s", action, step, code, id, firstDiff(v, a)))
+			return
+		}
+	}
+	// an accepted edit of ANOTHER step of the same run must change that step only
+	if len(d.Steps) < 2 {
+		return
+	}
+	other := d.Steps[0]
+	if other == step {
+		other = d.Steps[1]
+	}
+	prev := lastLine(sf.File)
+	code = e.post(d.ID, map[string]string{"action": "mark-failed", "requestId": run.Req, "step": other})
+	e.ops = append(e.ops, fmt.Sprintf("mark-failed %s req=latest step=%s (after the refused edit of %s) -> %d", d.ID, other, step, code))
+	if code != 200 {
+		return
+	}
+	c.Count("obligations", 1)
+	c.Count("edits_after_a_refused_edit", 1)
+	pm, nm := jsonMap(prev), jsonMap(lastLine(sf.File))
+	stepState := func(m map[string]any, name string) any {
+		nodes, _ := m["Nodes"].([]any)
+		for _, n := range nodes {
+			nmap, _ := n.(map[string]any)
+			if stp, _ := nmap["Step"].(map[string]any); stp != nil && stp["Name"] == name {
+				return nmap["StatusText"]
+			}
+		}
+		return nil
+	}
+	for _, n := range d.Steps {
+		if n != other && !reflect.DeepEqual(stepState(pm, n), stepState(nm, n)) {
+			e.violate("mark-changed-more|after-refused-edit", fmt.Sprintf("accepted mark-failed of step %s also changed step %s from %v to %v (the edit of %s refused just before has become durable)", other, n, stepState(pm, n), stepState(nm, n), step))
+		}
 	}
 }
 
